@@ -35,7 +35,7 @@ PLAN_CALLS = [["provides", "a"], ["requires", "b"], ["or"], ["provides", "c"]]
 def build_behaviours():
     out = []
     for launch in (False, True):
-        for store in (False, True):
+        for store in (False, True, "empty"):
             for bs in range(len(BUILD_SBOMS)):
                 for ls in range(len(LAUNCH_SBOMS)):
                     out.append(("pass", launch, store, bs, ls))
@@ -147,7 +147,9 @@ def judge(w, cfg):
             spec["ops"] = [{"op": "cached", "name": "broken", "build": True}]
         if launch:
             spec["launch"] = LAUNCH
-        if store:
+        if store == "empty":
+            spec["store"] = {}
+        elif store:
             spec["store"] = STORE
         spec["build_sboms"] = BUILD_SBOMS[bs]
         spec["launch_sboms"] = LAUNCH_SBOMS[ls]
@@ -236,7 +238,9 @@ def judge(w, cfg):
     expect = dict(before)
     if launch:
         expect["layers/launch.toml"] = "LAUNCH"
-    if store:
+    if store == "empty":
+        expect["layers/store.toml"] = "STORE-EMPTY"
+    elif store:
         expect["layers/store.toml"] = "STORE"
     for f, d in BUILD_SBOMS[bs]:
         expect[f"layers/build.sbom.{SBOM_EXT[f]}"] = d.encode()
@@ -247,7 +251,7 @@ def judge(w, cfg):
             continue
         want = expect[rel]
         got = after[rel]
-        if want in ("LAUNCH", "STORE"):
+        if want in ("LAUNCH", "STORE", "STORE-EMPTY"):
             try:
                 doc = tomllib.loads((got or b"").decode())
             except Exception as e:  # noqa
@@ -259,6 +263,9 @@ def judge(w, cfg):
                       and procs[0].get("default", False) is True and doc.get("labels") == [{"key": "k", "value": "v"}])
                 if not ok or set(doc) - {"processes", "labels", "slices"}:
                     bad("launch-content", f"launch.toml {doc} differs from the returned launch configuration")
+            elif want == "STORE-EMPTY":
+                if doc.get("metadata", {}) != {} or set(doc) - {"metadata"}:
+                    bad("store-content", f"store.toml {doc}: the result provided an EMPTY store")
             else:
                 if doc.get("metadata") != STORE or set(doc) != {"metadata"}:
                     bad("store-content", f"store.toml {doc} differs from the returned store {STORE}")
